@@ -31,7 +31,12 @@ class GotranPythonCodePrinter(PythonCodePrinter):
     _kc = {k: f"numpy.{v.replace('math.', '')}" for k, v in PythonCodePrinter._kc.items()}
 
     def _hprint_Pow(self, expr, rational=False, sqrt="numpy.sqrt"):
-        return super()._hprint_Pow(expr, rational, sqrt)
+        value = super()._hprint_Pow(expr, rational, sqrt)
+        if expr.exp == -sympy.S.Half and not rational:
+            # x**(-1/2) is printed as 1/sqrt(x), which needs parentheses when it is
+            # itself a denominator: a/(1/sqrt(x)) would be printed as a/1/sqrt(x)
+            value = f"({value})"
+        return value
 
     def _print_MatrixElement(self, expr):
         if expr.parent.shape[1] == 1:
